@@ -16,15 +16,15 @@
 //!            `["ref", k]` items and `apply_transform(arc.clone())`, kind "xf")
 //!   opinfo = [key_preserving, value_only, reorder_safe, cost_hint] of each operator of c
 //!   execs  = [seq optimised, seq literal, par optimised, par literal] outcomes
-//!   extra  = prog: [desc of build_plan().chain, explain().steps node types,
+//!   extra  = prog: [desc of build_plan().chain, explain() (see explain_json),
 //!                   [collect_seq, collect_par] outcomes]
 //!            syn:  [the outcome of the literal sequential run of the prefix before each
-//!                  non-terminal Materialized node, explain() node types of the optimised chain]
+//!                  non-terminal Materialized node, explain() of the optimised chain]
 use ibv::engine::*;
 use ibv::{Emitter, SplitMix64, Tier, drive};
 use ironbeam::combiners::DistinctSet;
 use ironbeam::node::{DynOp, Node};
-use ironbeam::planner::{Plan, build_plan, verif_passes as vp};
+use ironbeam::planner::{OptimizationDecision, Plan, build_plan, verif_passes as vp};
 use ironbeam::runner::verif_exec::{exec_chain_par, exec_chain_seq};
 use ironbeam::type_token::{Partition, TypeTag, vec_ops_for};
 use ironbeam::{Max, Min, PCollection, Pipeline, Sum, TopK, from_vec};
@@ -324,10 +324,126 @@ macro_rules! with_row_type {
     };
 }
 
-/// node types `Plan::explain` reports for a chain (Plan's fields are public)
-fn explain_types(chain: &[Node]) -> Vec<String> {
-    let plan = Plan { chain: chain.to_vec(), suggested_partitions: None, optimizations: vec![] };
-    plan.explain().steps.iter().map(|st| st.node_type.clone()).collect()
+/// the stable facts a step description states, or null when the wording is not recognised (then
+/// the judge does not look at the description; the text of explain is not an observable):
+/// ["src", n] | ["src_unknown"] | ["ops", n, [cost hints]] | ["cv", with local pre-aggregation?] |
+/// ["fanout", n|null] | ["none"]
+fn step_facts(node_type: &str, d: &str) -> Value {
+    let between = |a: &str, b: &str| -> Option<&str> {
+        let i = d.find(a)? + a.len();
+        let j = d[i..].find(b)? + i;
+        Some(&d[i..j])
+    };
+    match node_type {
+        "Source" => {
+            if d.contains("unknown size") {
+                json!(["src_unknown"])
+            } else {
+                match between("(", " elements)").and_then(|x| x.parse::<u64>().ok()) {
+                    Some(n) => json!(["src", n]),
+                    None => Value::Null,
+                }
+            }
+        }
+        "Stateless" => {
+            let n = between("Apply ", " operations").and_then(|x| x.parse::<u64>().ok());
+            let list = between("[", "]").map(|l| {
+                l.split(", ")
+                    .filter(|x| !x.is_empty())
+                    .map(|x| x.strip_prefix("op(cost=").and_then(|y| y.strip_suffix(')')).and_then(|y| y.parse::<u64>().ok()))
+                    .collect::<Option<Vec<u64>>>()
+            });
+            match (n, list) {
+                (Some(n), Some(Some(costs))) => json!(["ops", n, costs]),
+                _ => Value::Null,
+            }
+        }
+        "CombineValues" => {
+            if d.contains("with local pre-aggregation") {
+                json!(["cv", true])
+            } else if d.contains("on pairs") {
+                json!(["cv", false])
+            } else {
+                Value::Null
+            }
+        }
+        "CombineGlobal" => match between("fanout=", " ") {
+            Some("unbounded") => json!(["fanout", null]),
+            Some(x) => x.parse::<u64>().map_or(Value::Null, |f| json!(["fanout", f])),
+            None => Value::Null,
+        },
+        _ => json!(["none"]),
+    }
+}
+
+/// everything `Plan::explain` states that is determined by the plan:
+/// [steps, [barriers, total_ops, stateless_ops, source_size|null], suggested_partitions|null, opts]
+///   step = [step, node_type, is_barrier, cost_hint, facts]
+///   opt  = ["fused", before, after, ops] | ["reordered", ops, by_cost] | ["lifted", removed_barrier]
+///        | ["dropped", count] | ["parts", source_len|null, partitions]
+fn explain_json(plan: &Plan) -> Value {
+    let e = plan.explain();
+    let mut steps: Vec<Value> = e
+        .steps
+        .iter()
+        .map(|st| json!([st.step, st.node_type, st.is_barrier, st.cost_hint, step_facts(&st.node_type, &st.description)]))
+        .collect();
+    let mut barriers = e.cost_estimate.barriers;
+    let opts: Vec<Value> = e
+        .optimizations
+        .iter()
+        .map(|o| match o {
+            OptimizationDecision::FusedStateless { blocks_before, blocks_after, ops_count } => {
+                json!(["fused", blocks_before, blocks_after, ops_count])
+            }
+            OptimizationDecision::ReorderedValueOps { ops_count, by_cost } => json!(["reordered", ops_count, by_cost]),
+            OptimizationDecision::LiftedGBKCombine { removed_barrier } => json!(["lifted", removed_barrier]),
+            OptimizationDecision::DroppedMidMaterialized { count } => json!(["dropped", count]),
+            OptimizationDecision::PartitionSuggestion { source_len, partitions } => {
+                json!(["parts", source_len, partitions])
+            }
+        })
+        .collect();
+    if mutant().as_deref() == Some("explain_barrier") && opts.iter().any(|o| o[0] == json!("lifted")) {
+        // self-test (the seeded change reported by the coordinator): after a lift, a CombineValues
+        // without lifted local is no longer reported as a barrier
+        for st in &mut steps {
+            if st[1] == json!("CombineValues") && st[4] == json!(["cv", false]) {
+                st[2] = json!(false);
+                barriers -= 1;
+            }
+        }
+    }
+    let mut total_ops = e.cost_estimate.total_ops;
+    let mut opts = opts;
+    match mutant().as_deref() {
+        // further self-test tamperings of what explain reports
+        Some("explain_index0") => steps.iter_mut().for_each(|st| st[0] = json!(st[0].as_u64().unwrap() - 1)),
+        Some("explain_total") => total_ops += steps.iter().filter(|st| st[1] == json!("Source")).count(),
+        Some("explain_stcost") => steps.iter_mut().for_each(|st| {
+            if st[1] == json!("Stateless") {
+                st[3] = json!(10 * st[4][1].as_u64().unwrap_or(0));
+            }
+        }),
+        Some("explain_nolift") => opts.retain(|o| o[0] != json!("lifted")),
+        Some("explain_reorder_changed_only") => opts.retain(|o| o[0] != json!("reordered")),
+        Some("explain_cv_mode") => steps.iter_mut().for_each(|st| {
+            if st[4] == json!(["cv", false]) {
+                st[4] = json!(["cv", true]);
+            }
+        }),
+        _ => {}
+    }
+    json!([
+        steps,
+        [barriers, total_ops, e.cost_estimate.stateless_ops, e.cost_estimate.source_size],
+        e.suggested_partitions,
+        opts
+    ])
+}
+/// explain of a bare chain (Plan's fields are public)
+fn explain_chain(chain: &[Node]) -> Value {
+    explain_json(&Plan { chain: chain.to_vec(), suggested_partitions: None, optimizations: vec![] })
 }
 
 // ------------------------------------------------------------------ kind "prog"
@@ -338,10 +454,10 @@ fn prog_obs<T: Row>(p: &Pipeline, c: PCollection<T>, parts: usize) -> Value {
     let execs = exec4::<T>(&s.optimised, &raw, parts);
     let plan = build_plan(p, c.node_id()).expect("build_plan");
     let plan_desc = desc(&plan.chain, &s.ids);
-    let explain: Vec<String> = if mutant().as_deref() == Some("explain_raw") {
-        explain_types(&raw) // self-test: an explain that describes the unoptimised chain
+    let explain = if mutant().as_deref() == Some("explain_raw") {
+        explain_chain(&raw) // self-test: an explain that describes the unoptimised chain
     } else {
-        plan.explain().steps.iter().map(|st| st.node_type.clone()).collect()
+        explain_json(&plan)
     };
     let cs = {
         let c = c.clone();
@@ -671,8 +787,8 @@ fn run_syn(input: &Value) -> Value {
             }
         }
     }
-    let explain = explain_types(if mutant().as_deref() == Some("explain_raw") { &raw } else { &s.optimised });
-    json!(["ok", s.descs, s.opinfo, execs, [Value::Array(prefixes), json!(explain)]])
+    let explain = explain_chain(if mutant().as_deref() == Some("explain_raw") { &raw } else { &s.optimised });
+    json!(["ok", s.descs, s.opinfo, execs, [Value::Array(prefixes), explain]])
 }
 
 // ------------------------------------------------------------------ kind "xf"
